@@ -31,8 +31,9 @@ def sqlstate_classifier(exc: BaseException) -> ErrorClass:
 
     try:
         code = str(sqlstate)
-    except ValueError:
-        # e.g. an int beyond the interpreter's str() digit limit: not a SQLSTATE
+    except (ValueError, RecursionError):
+        # e.g. an int beyond the interpreter's str() digit limit, or a container nested
+        # deeper than the recursion limit: not a SQLSTATE
         return default_classifier(exc)
     if code in {"40001", "40P01"}:
         return ErrorClass.CONCURRENCY
